@@ -70,7 +70,8 @@ def check_program(item):
         return _pack(out)
     two = len(prog["agents"]) > 1
     variants = sim_variants(tier)
-    if two and tier == "quick":
+    if tier == "quick":
+        # quick: the two (timestep, maxSteps) variants alternate over the enumeration
         variants = variants[idx % 2 : idx % 2 + 1]
     for vi, var in enumerate(variants):
         for ti, tables in enumerate(tables_for(prog, tier, two)):
